@@ -131,12 +131,16 @@ def run(ctx):
     if b is None:
         raise ModelError("anchor", "SIPrefix::from_abbr has no body", where)
     ev = T.Evaluator(U, keep_tags=False)
+    abbr_ok = True
     try:
         outs = ev.summarize(b)
         bad = rules_c09.key_only_compared(outs, ev, ("==",))
     except T.Unsupported as x:
-        raise ModelError("lookup", "SIPrefix::from_abbr: unsupported construct %s" % x.what, x.sp or b["span"])
-    ctx.ob("lookup-key-use", "from_abbr", not bad, "from_abbr uses its argument outside equality comparisons (%s)" % bad, b["span"])
+        # reported, but from_exp below is still judged on its own
+        ctx.fail("lookup", "anchor", "anchor missing / unsupported construct: SIPrefix::from_abbr: unsupported construct %s" % x.what, x.sp or b["span"])
+        abbr_ok, outs, bad = False, [], None
+    if abbr_ok:
+        ctx.ob("lookup-key-use", "from_abbr", not bad, "from_abbr uses its argument outside equality comparisons (%s)" % bad, b["span"])
     lits = set()
 
     def collect(t):
@@ -162,7 +166,7 @@ def run(ctx):
     OTHER = "\x00<any other string>"
     cq = PrefixTable()
     cq.discr = dict(discr)
-    for key in sorted(lits | set(want_ab)) + [OTHER]:
+    for key in (sorted(lits | set(want_ab)) + [OTHER]) if abbr_ok else []:
         label = "<any other string>" if key is OTHER else repr(key)
         try:
             r = conc.Conc(U, cq, ev).pick(outs, {0: key})
